@@ -133,23 +133,29 @@ Proof.
   vm_compute. reflexivity.
 Qed.
 
-(* ---- failed writes, more than one handle (findings C07-WRITEERR and C07-HANDLES, open) ----
-   Full statement: for every history whose operations go through either of two handles that one caching
-   provider handed out for the app, and whose writes may fail after the storage applied nothing, all, or
-   (a batch) the first k items of them, every output equals the output of the uncached storage under the same
-   fault plan (except dont_care).  The code as it is refutes it twice over (the two examples below): every
-   AppStorage call builds a cache of its own, and a failed write leaves the cache as it was.
-   Proved for the variant with one cache per app and failed writes marking their keys - the repairs proposed in
-   findings/C07/HANDLES.diff and WRITEERR.diff; the flags cache_provider_one_per_app and
-   cache_write_error_marks say which variant the source is. *)
-Theorem cache_transparent_failed_writes_and_handles_partial :
+(* ---- failed writes, more than one handle ----
+   the caching provider hands out one caching storage per app (repaired finding C07-HANDLES) *)
+Lemma one_cache_per_app : cache_provider_one_per_app = true.
+Proof. reflexivity. Qed.
+
+(* a write whose storage call returned an error marks its keys: what the storage holds under them is not
+   known (repaired finding C07-WRITEERR) *)
+Lemma failed_writes_are_marked : cache_write_error_marks = true.
+Proof. reflexivity. Qed.
+
+(* For every history whose operations go through either of two handles that one caching provider handed out
+   for the app, and whose writes may fail after the storage applied nothing, all, or (a batch) the first k
+   items of them, every output equals the output of the uncached storage under the same fault plan (except
+   dont_care); K_inj as above.  Stated about the step function with the four flags read from the source. *)
+Theorem cache_transparent_failed_writes_and_handles :
   forall (K : bytes * bytes -> Prop),
   (forall k1 k2, K k1 -> K k2 -> make_key (fst k1) (snd k1) = make_key (fst k2) (snd k2) -> k1 = k2) ->
   forall xs, Forall (fun x => op_domain K (snd x)) xs ->
-  transparent_xrun true true true true (mkX ([], 0%Z) [] [] 0%Z) xs.
-Proof. exact (fun K Kinj xs => cache_transparent_x_proved K Kinj xs (mkX ([], 0%Z) [] [] 0%Z) (CI_init K)). Qed.
+  transparent_xrun cache_provider_one_per_app cache_big_values_marked cache_key_guard cache_write_error_marks
+                   (mkX ([], 0%Z) [] [] 0%Z) xs.
+Proof. exact (fun K Kinj xs => cache_transparent_x_src_proved K Kinj xs (mkX ([], 0%Z) [] [] 0%Z) (CI_init K)). Qed.
 
-(* one cache per handle (the code as it is): the first handle caches "not found", the second writes, the
+(* Both repairs are necessary.  One cache per handle (the code before the repair of C07-HANDLES): the first handle caches "not found", the second writes, the
    first still answers "not found" *)
 Example second_handle_own_cache_refuted :
   exists xs, list_eqb sout_eqb (xrun spec_step false true true true (mkX ([], 0%Z) [] [] 0%Z) xs)
@@ -160,7 +166,7 @@ Proof.
   vm_compute. reflexivity.
 Qed.
 
-(* a failed write leaves the cache as it was (the code as it is): a Put that times out after its effect, and a
+(* a failed write leaves the cache as it was (the code before the repair of C07-WRITEERR): a Put that times out after its effect, and a
    batch applied in its first item, leave the old value in the cache *)
 Example failed_write_keeps_entry_refuted :
   exists xs, list_eqb sout_eqb (xrun spec_step true true true false (mkX ([], 0%Z) [] [] 0%Z) xs)
@@ -194,7 +200,8 @@ Example failed_writes_and_handles_nonvacuous :
              (false, FErrAfter, OCad [97%N; 97%N] [3%N] [7%N]); (true, FNone, OGet [97%N; 97%N] [3%N])] in
   Forall (fun x => op_domain K (snd x)) xs /\
   (forall k1 k2, K k1 -> K k2 -> make_key (fst k1) (snd k1) = make_key (fst k2) (snd k2) -> k1 = k2) /\
-  xrun spec_step true true true true (mkX ([], 0%Z) [] [] 0%Z) xs = under_frun spec_step ([], 0%Z) (map xfop xs) /\
+  xrun spec_step cache_provider_one_per_app cache_big_values_marked cache_key_guard cache_write_error_marks
+       (mkX ([], 0%Z) [] [] 0%Z) xs = under_frun spec_step ([], 0%Z) (map xfop xs) /\
   under_frun spec_step ([], 0%Z) (map xfop xs) =
     [RGet None; RUnit; RGet (Some [5%N]); RErr; RGet (Some [6%N]); RErr; RGet (Some [6%N]); RUnit; RErr;
      RBatch [Some [1%N]; Some [0%N]]; RErr; RGet (Some [7%N]); RErr; RGet None].
@@ -252,5 +259,5 @@ Qed.
 
 Print Assumptions no_stale_read_after_completed_write.
 Print Assumptions cache_transparent.
-Print Assumptions cache_transparent_failed_writes_and_handles_partial.
+Print Assumptions cache_transparent_failed_writes_and_handles.
 Print Assumptions cacheable_is_mark_fits.
